@@ -27,7 +27,8 @@ Inductive cexpr : Type :=
                                                (* (first t1 r1 && r1 t2 r2 && ...): every middle operand is printed twice *)
 | CCond (c a b : cexpr)                        (* (c ? a : b) *)
 | CCast (ty : cty) (e : cexpr)                 (* static_cast<ty>(e) *)
-| CCall (f : text) (args : list cexpr)         (* f(a, b): abs / min / max are the Arduino macros *)
+| CCall (f : text) (args : list cexpr)         (* f(a, b): abs / min / max are the Arduino macros,
+                                                  __redu_floordiv / __redu_mod the emitter's helper templates *)
 | CString (e : cexpr)                          (* String(e) *)
 | CToNum (fl wrap : bool) (e : cexpr)          (* wrap: String(e).toInt() else (e).toInt(); fl: toFloat *)
 | CLen (e : cexpr)                             (* static_cast<int>(__redu_len(e)) *)
@@ -38,6 +39,9 @@ Definition t_abs : text := [97;98;115].
 Definition t_min : text := [109;105;110].
 Definition t_max : text := [109;97;120].
 Definition t_plus : text := [43].
+(* the helper templates the emitter adds for Python's // and % (emitter.FLOORDIV_HELPER_SNIPPET, MOD_HELPER_SNIPPET) *)
+Definition t_floordiv : text := [95;95;114;101;100;117;95;102;108;111;111;114;100;105;118].   (* __redu_floordiv *)
+Definition t_mod : text := [95;95;114;101;100;117;95;109;111;100].                               (* __redu_mod *)
 
 (* ---- printing ---- *)
 Definition cat (l : list text) : text := List.concat l.
